@@ -152,6 +152,15 @@ CORRUPTIONS: Dict[str, List[Tuple[str, Callable[[Trace], Optional[Trace]], str]]
                                  any(e["e"] == "t_close" and e.get("now", 0) >= 400 and _before_winddown(tr, i) for i, e in enumerate(tr)),
                                  delete(_is("t_close"))), "not-closed-when-idle"),
     ],
+    "C05W": [
+        ("terminating message after the failure", lambda tr: (
+            None if not (tr[0].get("app", {}).get("raise_at", "none") != "none" and tr[1].get("called", 0) > 0
+                         and tr[1]["resp"]["start_count"] >= 1) else
+            [tr[0], dict(tr[1], resp=dict(tr[1]["resp"], final=True))]), "falsely-complete"),
+        ("failure not handed on", lambda tr: (
+            None if not (tr[0].get("app", {}).get("raise_at", "none") != "none" and tr[1].get("called", 0) > 0) else
+            [tr[0], dict(tr[1], exc="")]), "failure-swallowed"),
+    ],
     "C08": [
         ("huge amount held", flip(lambda e: e["e"] == "quiescent" and e.get("now", 0) >= 0, "held", 900000000), "held-unbounded"),
     ],
